@@ -455,3 +455,102 @@ def noise_hook_rule(ctx, rid):
         ok = qsrc.replace(' ', '') == f'sorted({circ}.all_qubits())'
         ctx.ob(rid, f'{cq}.{mn}:system-qubits', ok, '' if ok else f'noise is generated for system qubits `{qsrc}` instead of sorted({circ}.all_qubits()): '
                'simulating with a noise model differs from simulating circuit.with_noise(model)', ci.mod.rel, c.lineno)
+
+
+def confusion_before_inversion_rule(ctx, rid):
+    """Both recording paths apply the confusion map to the raw outcome and the invert mask afterwards (the order MeasurementGate documents:
+    'the invert_mask ... is applied after confusion')."""
+    repo = ctx.repo
+    from ..flow import name_deps, stmts_in_order
+    ctx.rule(rid, 'order of read-out corrections: in SimulationState.measure (one simulation per repetition) and in StepResult.sample_measurement_ops (one simulation, many '
+             'samples) the confusion map is applied before the invert mask; with an asymmetric confusion matrix the two orders give different distributions', floor=2, style='MPT')
+    sites = [('cirq.sim.simulation_state.SimulationState', 'measure'), ('cirq.sim.simulator.StepResult', 'sample_measurement_ops')]
+    for cq, mn in sites:
+        ci = repo.cls(cq)
+        fn = repo.method(cq, mn)
+        # names holding the invert mask: the parameter, or locals bound from *.invert_mask / full_invert_mask()
+        dep = name_deps(fn, {a.arg: {a.arg} for a in fn.args.args if 'invert' in a.arg},
+                        source_of=lambda x: {'invert_mask'} if (isinstance(x, ast.Attribute) and 'invert_mask' in x.attr) or
+                        (isinstance(x, ast.Call) and 'invert_mask' in call_name(x)) else None)
+
+        def mask_derived(e):
+            for x in ast.walk(e):
+                if isinstance(x, ast.Name) and (dep.get(x.id) or 'invert' in x.id):
+                    if any('invert' in l for l in dep.get(x.id, {x.id})):
+                        return True
+                if isinstance(x, ast.Attribute) and 'invert_mask' in x.attr:
+                    return True
+            return False
+        order = stmts_in_order(fn)
+        c_pos = i_pos = None
+        for k, st in enumerate(order):
+            if isinstance(st, (ast.For, ast.While, ast.If, ast.With, ast.Try, ast.FunctionDef)):
+                heads = [st.test] if isinstance(st, (ast.If, ast.While)) else []
+            else:
+                heads = [st]
+            for h in heads:
+                for x in ast.walk(h):
+                    if isinstance(x, ast.Call) and call_name(x) in ('_confuse_result', '_confuse_results') and c_pos is None:
+                        c_pos = k
+            # an inversion: a XOR (binary or augmented) that is controlled by / combined with a value derived from the invert mask
+            if isinstance(st, ast.AugAssign) and isinstance(st.op, ast.BitXor):
+                from ..flow import enclosing_tests
+                tests = enclosing_tests(ci.mod.parents(), st, fn)
+                if (mask_derived(st.value) or any(mask_derived(t[0] if isinstance(t, tuple) else t) for t in tests)) and i_pos is None:
+                    i_pos = k
+            elif not isinstance(st, (ast.For, ast.While, ast.If, ast.With, ast.Try, ast.FunctionDef)):
+                for x in ast.walk(st):
+                    if isinstance(x, ast.BinOp) and isinstance(x.op, ast.BitXor) and (mask_derived(x) or mask_derived(st)) and i_pos is None:
+                        i_pos = k
+        if c_pos is None or i_pos is None:
+            raise AnalysisError(f'{cq}.{mn}: confusion step ({c_pos}) or inversion step ({i_pos}) not found')
+        ok = c_pos < i_pos
+        ctx.ob(rid, f'{cq}.{mn}:confusion-then-inversion', ok,
+               '' if ok else f'{mn} flips the bits of the invert mask before it applies the confusion map; SimulationState.measure and the MeasurementGate documentation '
+               'apply the confusion map to the raw outcome first: the terminal-measurement fast path and the per-repetition path disagree when both options are set',
+               ci.mod.rel, order[min(c_pos, i_pos)].lineno)
+
+
+def nested_copy_rule(ctx, rid):
+    """copy() of the classical measurement store: containers whose *elements* are mutated in place need one more level of copying."""
+    repo = ctx.repo
+    ctx.rule(rid, 'nested copy isolation: a field whose elements are themselves mutated in place (self.f[k].append(...)) is duplicated element by element in copy() '
+             '(a comprehension rebuilding every inner container, or deepcopy); a shallow self.f.copy() shares the inner lists between the copy and the original', floor=3, style='COH')
+    ci = repo.cls('cirq.value.classical_data.ClassicalDataDictionaryStore')
+    fn = ci.methods.get('copy')
+    if fn is None:
+        raise AnalysisError('ClassicalDataDictionaryStore.copy vanished')
+    nested = {}
+    for mn, m in ci.methods.items():
+        if mn in ('__init__', 'copy'):
+            continue
+        for n in ast.walk(m):
+            if isinstance(n, ast.Call) and isinstance(n.func, ast.Attribute) and n.func.attr in MUT_METH and isinstance(n.func.value, ast.Subscript) \
+                    and is_self_attr(n.func.value.value):
+                nested.setdefault(n.func.value.value.attr, f'{mn} ({ast.unparse(n)[:50]})')
+            # local alias of an element: x = self.f[k] ... x.append(..)
+        elem_alias = {}
+        for n in ast.walk(m):
+            if isinstance(n, ast.Assign) and isinstance(n.targets[0], ast.Name) and isinstance(n.value, ast.Subscript) and is_self_attr(n.value.value):
+                elem_alias[n.targets[0].id] = n.value.value.attr
+        for n in ast.walk(m):
+            if isinstance(n, ast.Call) and isinstance(n.func, ast.Attribute) and n.func.attr in MUT_METH and isinstance(n.func.value, ast.Name) and n.func.value.id in elem_alias:
+                nested.setdefault(elem_alias[n.func.value.id], f'{mn} ({ast.unparse(n)[:50]})')
+    if not nested:
+        raise AnalysisError('ClassicalDataDictionaryStore: no element-wise mutation found (record_measurement changed shape)')
+    calls = [c for c in ast.walk(fn) if isinstance(c, ast.Call) and call_name(c) in (ci.name, 'cls', 'type')]
+    if not calls:
+        raise AnalysisError('ClassicalDataDictionaryStore.copy: constructor call vanished')
+    kws = {k.arg: k.value for k in calls[0].keywords}
+    for f, where in sorted(nested.items()):
+        v = kws.get(f) or kws.get(f.lstrip('_'))
+        ok = False
+        if v is not None:
+            if isinstance(v, ast.Call) and call_name(v) == 'deepcopy':
+                ok = True
+            if isinstance(v, ast.DictComp):
+                e = v.value
+                ok = (isinstance(e, ast.Call) and (call_name(e) in ('copy', 'list', 'tuple', 'deepcopy'))) or (isinstance(e, ast.Subscript) and isinstance(e.slice, ast.Slice)) \
+                    or isinstance(e, (ast.ListComp, ast.List))
+        ctx.ob(rid, f'{ci.qual}.copy:{f}', ok, '' if ok else f'copy() passes `{ast.unparse(v)[:50] if v is not None else None}` for `{f}`, but {where} appends to the inner list in place: '
+               'a copied simulation state that measures the same key again also changes the records of the original (repeated keys, replay from copies)', ci.mod.rel, fn.lineno)
